@@ -40,7 +40,8 @@ inductive Tok
   | esInit                   -- es_.init()
   | setGen (n : Nat)         -- stats_.gen = n
   | incGen                   -- ++stats_.gen
-  | ifShake                  -- if (shake(stats_.gen)) { shakeBody }
+  | ifShake (c : BX)         -- if (c) { shakeBody }   (c mentions the call `shake(stats_.gen)`; the CONDITION is
+                             --                          part of the skeleton: `shake(stats_.gen) && stats_.gen` is another run)
   | azStats                  -- stats_.az = get_stats()
   | select                   -- auto parents(es_.selection.run())
   | recombine                -- auto off(es_.recombination.run(parents))
